@@ -242,6 +242,17 @@ class FS:
         else:
             sim.clock.tick()
         sim.log(a.name, call, rel)
+        if not mut and sim.rfaults and call in READ_FAULT_CALLS:
+            n = getattr(a, "rcount", 0)
+            a.rcount = n + 1
+            kind = sim.rfaults.get((a.name, n))
+            if kind is not None and sim.fault_filter is not None and \
+                    not sim.fault_filter(call, rel):
+                kind = None
+            if kind is not None:
+                sim.fired.append((a.name, n, kind, call, rel))
+                sim.log(a.name, "FAULT", rel, kind)
+                raise make_fault(kind, call, rel)
         if mut:
             self.mut_calls += 1
             n = a.mcount
@@ -610,6 +621,9 @@ class VScandir:
 
 
 # ---------------------------------------------------------------- wrappers
+# non-mutating calls a read-side fault may hit (a failing disk, EMFILE)
+READ_FAULT_CALLS = frozenset(["open_r", "read", "listdir", "scandir"])
+
 # calls that follow a symlink in the last path component
 FOLLOWING_CALLS = frozenset(["open_w", "chmod", "utime", "truncate"])
 PATH_MUT_CALLS = frozenset(["open_w", "open_excl", "mkdir", "rmdir", "unlink",
